@@ -44,7 +44,7 @@ package lttb
 //@   returns (out, err)
 //@   requires [iterator-at-start] it != nil && icur(it) == 0 && ilen(it) == count && count >= 0
 //@   assume   [fewer-than-2^61-points] count <= 2305843009213693952
-//@   modifies nothing
+//@   modifies ghost(icur, it), ghost(six, all)
 //@   ghost preCur int
 //@   ghost curStart int
 //@   before call it: ghost preCur = icur(it)
